@@ -26,7 +26,12 @@ def mk_abs(ms):
     return s
 
 
+PREBUILT = []      # a judge may hand over an already built object (e.g. one whose messages are shared) for the next mk_rel
+
+
 def mk_rel(ms):
+    if PREBUILT:
+        return PREBUILT.pop(0)
     return Sequence(relative_sequence=RelativeSequence(messages=[to_message(m, rel=True) for m in ms]))
 
 
@@ -1082,6 +1087,8 @@ def _exec(ops, upto=None, trace=True, return_store=False, hook=None):
                 store[o[1]].add_relative_message(to_message(o[2], rel=True), index=o[3])
             elif k == "OConcat":
                 store[o[1]].concatenate([store[j].copy() for j in o[2]])
+            elif k == "OConcatShare":     # plain concatenate: the receiver takes over the operands' Message objects
+                store[o[1]].concatenate([store[j] for j in o[2]])
             elif k == "OConcatLit":
                 store[o[1]].concatenate([mk_rel(ms) for ms in o[2]])
             elif k == "OMerge":
@@ -1225,6 +1232,8 @@ def lit_op(o):
         return f"OAddRel {nat(o[1])} ({lit_msg(o[2])}) " + ("None" if o[3] is None else f"(Some {z(o[3])})")
     if k in ("OConcat", "OMerge"):
         return f"{k} {nat(o[1])} {nats(o[2])}"
+    if k == "OConcatShare":
+        return f"OConcat {nat(o[1])} {nats(o[2])}"
     if k == "OConcatLit":
         return f"OConcatLit {nat(o[1])} {lit_msgss(o[2])}"
     if k == "OCutoff":
@@ -1318,6 +1327,62 @@ def gen_scale_down(r):
 
 Op("scale_down", gen_scale_down, lambda ops_: _exec(ops_), lambda ops_: f"show_trace_h {lit_hops(ops_)}",
    lambda ops_: any(o[0] == "OScaleDown" for o in ops_))
+
+def gen_concat_repeat(r):
+    """a section repeated with plain concatenate (the same operand several times, or a sequence appended to itself: the
+    piece then holds the same Message objects more than once), followed by ONE operation on the piece and reads.  Only
+    operations that do not edit message fields in place are used (transpose / scale on such a piece fall under the
+    known finding D9').  Returns (ops, target index, number of objects before the follow-up)."""
+    x = r.random()
+    if x < 0.4:
+        motif = G.gen_rel_malformed(r, n=r.randint(1, 7))
+    else:
+        motif = G.gen_rel_wf(r, n=r.randint(0, 3), pitches=[60, 61, 62], hi=40, extra=False, sigs=r.random() < 0.4)
+        if r.random() < 0.6:
+            motif.append(WT(r.choice([0, 1]), r.choice([6, 12, 24])))         # a rest, e.g. the one pad() appended
+        if r.random() < 0.4:
+            motif.append(WT(0, r.choice([6, 12])))
+    mode = r.choice(["new", "new", "prefix", "self"])
+    ops = [("ONewRel", motif)]
+    if mode == "self":
+        t = 0
+        ops.append(("OConcatShare", 0, [0]))      # s.concatenate([s]): the section twice
+    else:
+        t = 1
+        ops.append(("ONew",) if mode == "new" else ("ONewRel", G.gen_rel_wf(r, n=r.randint(0, 2), pitches=[60, 61], hi=30, extra=False)))
+        ops.append(("OConcatShare", 1, [0] * r.choice([2, 2, 3])))
+    n0 = t + 1
+    d = sum(m[2] for m in motif if m[0] == "WAIT")
+    k = r.choice(["ONormalise", "ONormalise", "OPad", "OPad", "OSplit", "OSplit", "OSetChannel", "OCutoff", "OQuantNormDefault",
+                  "ODuration", "OPairings", "OQuantise", "OQnl"])
+    if k in ("ONormalise", "OQuantNormDefault", "ODuration", "OPairings"):
+        ops.append((k, t))
+    elif k == "OPad":
+        ops.append((k, t, r.choice([0, d, 2 * d, 2 * d + 6, 3 * d + 12, 200, 2 * d + 1])))
+    elif k == "OSplit":
+        caps = r.choice([G.gen_caps(r), [max(1, d // 2)] * 4, [max(1, d - 2), d, d], [4, 8, 8]])
+        ops.append((k, t, caps))
+    elif k == "OSetChannel":
+        ops.append((k, t, r.choice([0, 1, 2])))
+    elif k == "OCutoff":
+        ops.append((k, t, 12, 6))
+    elif k == "OQuantise":
+        ops.append((k, t, r.choice(G.STEP_POOLS)))
+    elif k == "OQnl":
+        ops.append((k, t, r.choice([v for v in G.VALUE_POOLS if v]), 24, r.random() < 0.5))
+    ops += [("OReadRel", t), ("OReadAbs", t)]
+    return ops, t, n0
+
+
+def _impl_concat_repeat(inp):
+    ops_, t, n0 = inp
+    store, tr = _exec(ops_, return_store=True)
+    return "$".join(x.split("@")[0] for x in tr) + "@" + show_seq(store[t]) + "#" + "#".join(show_seq(s_) for s_ in store[n0:])
+
+
+Op("concat_repeat", gen_concat_repeat, _impl_concat_repeat,
+   lambda inp: f"show_final_h {lit_hops(inp[0])} {inp[2]}%nat {inp[1]}%nat",
+   lambda inp: len(inp[0][0][1]) > 2)
 
 Op("history", lambda r: gen_history(r), lambda ops_: _exec(ops_), lambda ops_: f"show_trace_h {lit_hops(ops_)}",
    lambda ops_: len(ops_) >= 4)
@@ -1441,7 +1506,8 @@ def gen_midi_file(r, dyadic=True):
             groups.append([ntr + 1])    # a group naming a track that does not exist
     metas = r.choice([list(range(ntr)), [0], [r.randrange(ntr)], []])
     mi = r.choice([0, 0, 0, len(groups) - 1, len(groups), -1])
-    return tpb, tracks, groups, metas, mi
+    # last: the file is parsed once and converted several times (sequences_load(midi_file=...)); the judged load is the last
+    return tpb, tracks, groups, metas, mi, r.random() < 0.35
 
 
 def write_midi(tpb, tracks, path):
@@ -1454,13 +1520,25 @@ def write_midi(tpb, tracks, path):
     f.save(path)
 
 
-def _impl_midi_load(inp):
-    tpb, tracks, groups, metas, mi = inp
-    path = os.path.join(TMP, f"l{os.getpid()}.mid")
+def midi_load(inp, path):
+    tpb, tracks, groups, metas, mi = inp[:5]
     write_midi(tpb, tracks, path)
-    seqs = Sequence.sequences_load(path, track_indices=[list(g) for g in groups], meta_track_indices=list(metas),
+    if len(inp) > 5 and inp[5]:
+        mf = MidiFile.open(path)
+        try:
+            Sequence.sequences_load(midi_file=mf)                 # an earlier look at the file with the default grouping
+            Sequence.sequences_load(midi_file=mf, track_indices=[list(g) for g in groups], meta_track_indices=list(metas),
+                                    target_meta_track_index=mi)
+        except Exception:
+            pass
+        return Sequence.sequences_load(midi_file=mf, track_indices=[list(g) for g in groups], meta_track_indices=list(metas),
+                                       target_meta_track_index=mi)
+    return Sequence.sequences_load(path, track_indices=[list(g) for g in groups], meta_track_indices=list(metas),
                                    target_meta_track_index=mi)
-    return "#".join(show_seq(s) for s in seqs)
+
+
+def _impl_midi_load(inp):
+    return "#".join(show_seq(s) for s in midi_load(inp, os.path.join(TMP, f"l{os.getpid()}.mid")))
 
 
 Op("midi_load", lambda r: gen_midi_file(r), _impl_midi_load,
@@ -1474,6 +1552,10 @@ def _gen_midi_rt(r):
     for i in range(n):
         notes = G.gen_notes(r, n=r.randint(0, 5), chans=[r.choice([0, 1])], pitches=[60, 61, 62, 64], hi=100)
         ms = G.notes_to_abs(r, notes, sigs=True, extra=False)
+        # program / control changes in the middle of a track (sequences_load itself puts them into the note sequences)
+        for _ in range(r.choice([0, 0, 0, 1, 2])):
+            ms.append(PC(ms[0][1] if ms else 0, r.randint(0, 5), G.tick(r, 100)) if r.random() < 0.7 else
+                      CC(ms[0][1] if ms else 0, 64, r.choice([0, 127]), G.tick(r, 100)))
         rel = G.abs_to_rel(ms)
         if r.random() < 0.3:
             rel.append(WT(0, r.choice([6, 24])))
